@@ -9,16 +9,42 @@ TRUSTED_BASE = [
     "class glue correspondence: the raw two-sided estimate comes from the implementation's functional API (tied to the model under "
     "C01/C08/C12-C17/C19), the model applies slice/double/reverse and scale(); axes: Range.* vs the model's rangeBins * df",
     "float mode rtol 1e-9",
+    "placement oracle ('place'): numpy evaluation of c*rho/fs*|B(f_j)|^2/|A(f_j)|^2 at the frequencies the object reports, from the "
+    "coefficients the object stores (aryule's rho for pyule, which does not store it); per-entry rtol 1e-9 (library: <= 1e-13)",
 ]
 PARTIAL = ["'a dominant tone in noise peaks within one bin / the main-lobe half-width' for Burg, Yule-Walker, ARMA, minimum variance, "
            "multitaper and real sinusoids is a perturbation statement about the spectrum function, not about indexing: evaluated by "
            "the oracle with the stated tolerances; the placement theorems (entry j = c_j * spectrum at the frequency reported at j) and "
-           "the exact-bin theorems for the periodogram and MUSIC/EV are proved"]
+           "the exact-bin theorems for the periodogram and MUSIC/EV are proved",
+           "placement of the model-based estimates (Burg, Yule-Walker, covariance, modified covariance, ARMA, MA) is checked entry by "
+           "entry against the rational spectrum of the stored coefficients evaluated at frequencies()[j]; for minimum variance, "
+           "multitaper, periodogram, correlogram, MUSIC and EV the independent placement evidence is the tone clause"]
 ASSUMPTIONS = ["tone amplitude 1, noise 1e-3; real sinusoids at least 4 main-lobe widths from 0 and sampling/2",
-               "main-lobe half-widths used by the oracle (in NFFT bins): periodogram 2*NFFT/N+1, correlogram NFFT/lag+1, multitaper "
-               "NW*NFFT/N+1, parametric/subspace 1+NFFT/N"]
-RULE = ("14 estimator class variants x real/complex x N in {32,33,47,64} x NFFT in {None, nextpow2, even>=N, odd>=N} x sampling x tone "
-        "bin k (positive and negative frequencies); non-trivial = all")
+               "main-lobe half-widths of the statement (in NFFT bins): periodogram 2*NFFT/N+1, correlogram NFFT/lag+1, multitaper "
+               "NW*NFFT/N+1, parametric/subspace 1+NFFT/N; ARMA at non-default orders: NFFT/(lag-Q+P)+1 (the AR part is a fit to the "
+               "lag-Q+P correlation lags Q-P+1..lag only)",
+               "allowed distance of the maximum, complex on-grid exponential: 0 bins for periodogram, correlogram, covariance, modified "
+               "covariance, MUSIC, EV (the statement) and for Burg, Yule-Walker, minimum variance, ARMA at the default orders and the "
+               "eigen-weighted multitaper at NW=2.5, k=4 (the statement allows one bin / the taper bandwidth; 0 is what the unchanged "
+               "library does on > 10^5 cases and at 100 times the noise); one bin for ARMA and the eigen-weighted multitaper at other "
+               "configurations; unity / adaptive multitaper: NW*NFFT/N, at NW=2.5, k=4 min(NW*NFFT/N, 1.5*NFFT/N+1)",
+               "allowed distance, real sinusoid: min(half-width, observed + 1 bin): 0 for covariance, modified covariance and for "
+               "MUSIC / EV at order 6, NSIG 2; 2 for Burg; 1 for periodogram, correlogram, Yule-Walker, minimum variance, ARMA at the "
+               "default orders, MUSIC / EV at other orders, eigen-weighted multitaper; unity / adaptive multitaper at NW=2.5, k=4 "
+               "min(half-width, 1.75*NFFT/N+1); the half-width itself for ARMA and unity / adaptive multitaper at other configurations",
+               "tone cases at non-default configurations: AR order >= 1 (complex) / >= 2 (real), ARMA order exactly 2 for real data (a "
+               "spare real pole is placed by the noise alone: ill-conditioned), minimum variance order >= 3, correlogram lag >= 4, "
+               "non-negative data / lag windows (flattop, lanczos, sinc have negative samples and may legitimately peak one bin off); "
+               "MUSIC / EV: number of exponentials <= NSIG <= order-2 or NSIG = order-1 = number of exponentials (a single noise vector "
+               "with spare roots has spurious nulls), NSIG chosen by the library (aic, mdl, threshold 2) at order = number of "
+               "exponentials + 1, threshold 100 at any order",
+               "shape clause through constructor defaults: list / integer / float32 / complex-with-zero-imaginary data, integer "
+               "sampling, numpy-integer NFFT, o() and o.run() entry points, N in 6..16 with minimal orders"]
+RULE = ("14 estimator class variants x real/complex x N in {32,33,47,64} x NFFT in {None, nextpow2, 64, 65, 2N, 2N+1, 97} (full product "
+        "in the thorough tier; every class meets every NFFT choice in each quick run) x sampling x tone bin k (positive, negative and "
+        "boundary bins 0, +-1, +-NFFT/2, +-(NFFT//2-1)) x default / random / boundary configurations; entry-by-entry placement of the "
+        "6 model-based classes x real/complex x N in {32,33} x NFFT in {None, nextpow2, 64, 65} x sampling in {1, 250}; constructor "
+        "defaults x data containers / dtypes x entry points; non-trivial = all")
 
 SIDES = ["onesided", "twosided", "centerdc"]
 
@@ -84,6 +110,129 @@ def post_axis(p, iv, mv):
     return iv, M
 
 
+def _make(cls, x, cfg, **kw):
+    """the constructor call of C.make with the keyword arguments left to the caller: the ones not given take the constructor's own
+    defaults (scale_by_freq, NFFT, sampling); pmusic / pev also take `criteria` and `threshold` from cfg"""
+    s = C.sp()
+    if cls == "Periodogram":
+        return s.Periodogram(x, window=cfg.get("window", "hann"), **kw)
+    if cls == "pcorrelogram":
+        return s.pcorrelogram(x, lag=cfg["lag"], window=cfg.get("window", "hamming"), **kw)
+    if cls == "pburg":
+        return s.pburg(x, cfg["order"], criteria=cfg.get("criteria"), **kw)
+    if cls == "pyule":
+        return s.pyule(x, cfg["order"], **kw)
+    if cls == "pcovar":
+        return s.pcovar(x, cfg["order"], **kw)
+    if cls == "pmodcovar":
+        return s.pmodcovar(x, cfg["order"], **kw)
+    if cls == "parma":
+        return s.parma(x, cfg["order"], cfg["Q"], cfg["lag"], **kw)
+    if cls == "pma":
+        return s.pma(x, cfg["Q"], cfg["M"], **kw)
+    if cls == "pminvar":
+        return s.pminvar(x, cfg["order"], **kw)
+    if cls in ("pmusic", "pev"):
+        extra = dict((k, cfg[k]) for k in ("criteria", "threshold") if k in cfg)
+        extra.update(kw)
+        return getattr(s, cls)(x, cfg["order"], NSIG=cfg.get("nsig"), **extra)
+    if cls.startswith("MT-"):
+        return s.MultiTapering(x, NW=cfg.get("NW", 2.5), k=cfg.get("k"), method=cls[3:], **kw)
+    raise ValueError(cls)
+
+
+def _build(p, cfg=None):
+    """the estimator object of a tone / place case (scale_by_freq=False as in C.make)"""
+    cfg = cfg or p.get("cfg") or C.default_cfg(p["cls"], len(p["x"]), np.iscomplexobj(p["x"]))
+    if p["cls"] in ("pmusic", "pev") and ("criteria" in cfg or "threshold" in cfg):
+        return _make(p["cls"], p["x"], cfg, NFFT=p["nfft"], sampling=p["fs"], scale_by_freq=False)
+    return C.make(p["cls"], p["x"], p["nfft"], p["fs"], False, cfg)
+
+
+# ---- placement: entry j of the model-based estimates is the rational spectrum at the frequency reported at j -------------------------
+
+def _poly_at(c, f, fs):
+    """1 + sum_m c_m exp(-2 pi i f m / fs) at every f (direct evaluation, no FFT)"""
+    if c is None or len(c) == 0:
+        return np.ones(len(f), dtype=complex)
+    c = np.asarray(c, dtype=complex)
+    m = np.arange(1, len(c) + 1)
+    return 1.0 + np.exp(-2j * np.pi * np.outer(f, m) / fs).dot(c)
+
+
+def oracle_place(p):
+    cls = p["cls"]
+    x = np.asarray(p["x"])
+    fs = p["fs"]
+    cfg = p.get("cfg") or C.default_cfg(cls, len(x), np.iscomplexobj(x))
+    o = _build(p, cfg)
+    psd = np.asarray(o.psd)
+    f = np.asarray(o.frequencies(), dtype=float)
+    tag = "%s %s N=%d NFFT=%s fs=%g cfg=%s" % (cls, "complex" if np.iscomplexobj(x) else "real", len(x), p["nfft"], fs, cfg)
+    if len(psd) != len(f):
+        return ["%s: %d psd values but frequencies() returns %d" % (tag, len(psd), len(f))]
+    ar = None if cls == "pma" else o.ar
+    ma = o.ma if cls in ("parma", "pma") else None
+    if cls == "pyule":
+        rho = C.sp().aryule(x, cfg["order"])[1]       # pyule does not keep the driving-noise variance
+    else:
+        rho = o.rho
+    if cls != "pma" and (ar is None or len(ar) != cfg["order"]):
+        return ["%s: the object stores %r AR parameters, expected %d" % (tag, None if ar is None else len(ar), cfg["order"])]
+    if cls in ("parma", "pma") and (ma is None or len(ma) != cfg["Q"]):
+        return ["%s: the object stores %r MA parameters, expected %d" % (tag, None if ma is None else len(ma), cfg["Q"])]
+    c = 1.0 if np.iscomplexobj(x) else 2.0
+    ref = c * float(np.real(rho)) / fs * np.abs(_poly_at(ma, f, fs)) ** 2 / np.abs(_poly_at(ar, f, fs)) ** 2
+    if not np.all(np.isfinite(ref)) or np.any(ref <= 0):
+        return []          # a pole / zero exactly on a reported frequency: nothing to compare
+    e = np.abs(psd - ref) / ref
+    j = int(np.argmax(e))
+    if not e[j] <= 1e-9:
+        return ["%s: psd[%d] = %.12g but the spectrum of the stored coefficients at frequencies()[%d] = %.6g is %.12g (relative "
+                "difference %.2e)" % (tag, j, psd[j], j, f[j], ref[j], e[j])]
+    return []
+
+
+# ---- shape through the constructor defaults and the other entry points -------------------------------------------------------------
+
+def oracle_entry(p):
+    """length / axis / realness clause for an object built as a user would: keyword arguments in p['kw'] only (the others take the
+    constructor defaults), data of any accepted container / dtype, evaluation through .psd, o() or o.run()"""
+    cls = p["cls"]
+    data = p["x"]
+    xa = np.asarray(data)
+    N = len(xa)
+    cplx = np.iscomplexobj(xa)
+    kw = dict(p.get("kw") or {})
+    cfg = p.get("cfg") or C.default_cfg(cls, N, cplx)
+    o = _make(cls, data, cfg, **kw)
+    if p.get("entry") == "call":
+        o()
+    elif p.get("entry") == "run":
+        o.run()
+    psd = np.asarray(o.psd)
+    f = np.asarray(o.frequencies())
+    nf = kw.get("NFFT")
+    nfft = int(C.resolved_nfft(xa, nf if (nf is None or isinstance(nf, str)) else int(nf)))
+    fs = float(kw.get("sampling", 1.0))
+    tag = "%s %s %s N=%d kw=%r entry=%s" % (cls, type(data).__name__, xa.dtype, N, kw, p.get("entry", "psd"))
+    out = []
+    if o.NFFT != nfft:
+        out.append("%s: NFFT attribute is %r, expected %d" % (tag, o.NFFT, nfft))
+    L = C.expected_len(not cplx, nfft)
+    if len(psd) != L:
+        out.append("%s: psd has %d values, expected %d" % (tag, len(psd), L))
+    if len(f) != len(psd):
+        out.append("%s: %d psd values but frequencies() returns %d" % (tag, len(psd), len(f)))
+    if psd.dtype.kind != "f" or not np.all(np.isfinite(psd)):
+        out.append("%s: psd is not real and finite (dtype %s)" % (tag, psd.dtype))
+    if o.sides != ("twosided" if cplx else "onesided"):
+        out.append("%s: sides is %r" % (tag, o.sides))
+    if len(f) == L and rel(f, np.arange(L) * fs / nfft) > 1e-12:
+        out.append("%s: frequencies() is not k*sampling/NFFT" % tag)
+    return out
+
+
 def _half_width(cls, N, nfft, cfg):
     if cls == "Periodogram":
         return 2.0 * nfft / N + 1
@@ -98,19 +247,19 @@ EXACT = ("Periodogram", "pcorrelogram", "pcovar", "pmodcovar", "pmusic", "pev")
 ONE_BIN = ("pburg", "pyule", "parma", "pminvar")
 
 
-def oracle_tone(p):
+def _tone_dev(p):
+    """(distance in NFFT bins between the reported frequency of the maximum and the tone, allowed distance, message) or a string when
+    psd and frequencies() do not even have the same length"""
     cls = p["cls"]
-    if cls == "pma":
-        return []
     x = np.asarray(p["x"])
     nfft = C.resolved_nfft(x, p["nfft"])
     fs = p["fs"]
     cfg = p.get("cfg") or C.default_cfg(cls, len(x), np.iscomplexobj(x))
-    o = C.make(cls, x, p["nfft"], fs, False, cfg)
+    o = _build(p, cfg)
     psd = np.asarray(o.psd)
     f = np.asarray(o.frequencies())
     if len(psd) != len(f):
-        return ["%s: %d psd values but %d frequencies" % (cls, len(psd), len(f))]
+        return "%s: %d psd values but %d frequencies" % (cls, len(psd), len(f))
     am = int(np.argmax(psd))
     k = p["k"]
     df = fs / nfft
@@ -118,22 +267,74 @@ def oracle_tone(p):
         fexp = (k % nfft) * df
         d = abs(f[am] - fexp) / df
         d = min(d, nfft - d)
-        if cls in EXACT:
-            tol = 0.0
-        elif cls in ONE_BIN:
-            tol = 1.0
-        else:
-            tol = cfg.get("NW", 2.5) * nfft / len(x)
-        if d > tol + 1e-9:
-            return ["%s (complex, N=%d, NFFT=%s): tone at bin %d (frequency %.5g) but the maximum is reported at frequency %.5g "
-                    "(%.2f bins away, allowed %.2f)" % (cls, len(x), p["nfft"], k, fexp, f[am], d, tol)]
+        tol = _TOL_COMPLEX(cls, len(x), nfft, cfg, p.get("cfg") is not None)
+        msg = ("%s (complex, N=%d, NFFT=%s, fs=%g, cfg=%s): tone at bin %d (frequency %.5g) but the maximum is reported at frequency "
+               "%.5g (%.2f bins away, allowed %.2f)" % (cls, len(x), p["nfft"], fs, p.get("cfg"), k, fexp, f[am], d, tol))
     else:
         fexp = abs(k) * df
         d = abs(f[am] - fexp) / df
-        tol = _half_width(cls, len(x), nfft, cfg)
-        if d > tol + 1e-9:
-            return ["%s (real, N=%d, NFFT=%s): sinusoid at |f| = %.5g but the maximum is reported at %.5g (%.2f bins away, "
-                    "main-lobe half-width %.2f)" % (cls, len(x), p["nfft"], fexp, f[am], d, tol)]
+        tol = _TOL_REAL(cls, len(x), nfft, cfg, p.get("cfg") is not None)
+        msg = ("%s (real, N=%d, NFFT=%s, fs=%g, cfg=%s): sinusoid at |f| = %.5g but the maximum is reported at %.5g (%.2f bins away, "
+               "allowed %.2f)" % (cls, len(x), p["nfft"], fs, p.get("cfg"), fexp, f[am], d, tol))
+    return d, tol, msg
+
+
+# Tolerances.  The statement's allowances (one bin / taper bandwidth / main-lobe half-width) are upper bounds; where the unchanged library
+# is observed to do better on every case (>= 10^5 tone cases over seeds 0..11 quick and 4 thorough-sized samples, and still at 100 times
+# the noise amplitude for the entries set to 0), the oracle asks for the observed distance plus one bin of margin, never more than the
+# statement's allowance.  Distances are whole bins, so "0" means the maximum sits on the tone's own entry.
+_EXACT_COMPLEX_OBSERVED = ("pburg", "pyule", "pminvar")       # statement: one bin; observed 0 (peak/neighbour ratio >= 2.6)
+_EXACT_REAL_OBSERVED = ("pcovar", "pmodcovar")                 # exact for a noiseless sinusoid (Prony); observed 0, ratio >= 2.8e5
+
+
+def _TOL_COMPLEX(cls, N, nfft, cfg, custom=False):
+    r = float(nfft) / N
+    if cls in EXACT or cls in _EXACT_COMPLEX_OBSERVED:
+        return 0.0
+    if cls == "parma":
+        return 1.0 if custom else 0.0          # default orders: observed 0 (ratio >= 2e4); other orders: the statement's one bin
+    if cls == "MT-eigen":
+        # eigenvalue weights: observed 0 for every (N, NFFT, NW, k) met, also at 100 times the noise (the shape of the weighted sum of
+        # taper spectra is fixed by the tapers); one bin of margin away from NW=2.5, k=4
+        return min(1.0 if custom else 0.0, cfg.get("NW", 2.5) * r)
+    stated = cfg.get("NW", 2.5) * r
+    if not custom:
+        return min(stated, 1.5 * r + 1)                       # unity / adaptive weights at NW=2.5, k=4: observed <= 1.5 N-grid bins
+    return stated
+
+
+def _TOL_REAL(cls, N, nfft, cfg, custom):
+    stated = _half_width(cls, N, nfft, cfg)
+    r = float(nfft) / N
+    if cls in _EXACT_REAL_OBSERVED:
+        return 0.0
+    if cls in ("pmusic", "pev") and not custom:
+        return 0.0                                            # NSIG = 2 = number of exponentials: exact null; observed 0, ratio >= 3e5
+    if cls == "pburg":
+        return min(stated, 2.0)                               # observed <= 1
+    if cls == "parma":
+        if not custom:
+            return min(stated, 1.0)                           # observed 0
+        # the AR part is a covariance-method fit to the lag-Q+P correlation lags Q-P+1..lag only (modified Yule-Walker equations): the
+        # estimator's resolution is that of a record of lag-Q+P samples, as the correlogram's is that of its lag count.  Observed: up to
+        # 3.5 N-grid bins (0.29 of this width) for P=2, Q=3, lag=5, where the two AR parameters are fitted to exactly four lags
+        return float(nfft) / (cfg["lag"] - cfg["Q"] + cfg["order"]) + 1
+    if cls in ("MT-unity", "MT-adapt"):
+        return min(stated, 1.75 * r + 1) if not custom else stated       # NW=2.5, k=4: observed <= 1.67 N-grid bins
+    return min(stated, 1.0)                                   # observed 0 for periodogram, correlogram, Yule-Walker, minimum variance,
+    #                                                           MUSIC / EV at other orders, eigen-weighted multitaper
+
+
+def oracle_tone(p):
+    if p["cls"] == "pma":
+        # the MA model is exempt from the tone clause; the shape clause holds for this record all the same
+        return oracle_shape(p)
+    r = _tone_dev(p)
+    if isinstance(r, str):
+        return [r]
+    d, tol, msg = r
+    if d > tol + 1e-9:
+        return [msg]
     return []
 
 
@@ -141,15 +342,27 @@ def _key(p):
     if "cls" not in p:
         return "axis|%d|%g" % (p["n"], p["fs"])
     x = np.asarray(p["x"])
-    return "%s|%d|%s|%s|%s|%s|%d" % (p["cls"], len(x), p["nfft"], p["fs"], p.get("k"), np.iscomplexobj(x), hash(x.tobytes()) & 0xFFFFF)
+    extra = ""
+    if p.get("cfg") is not None or "kw" in p:
+        extra = "|%s|%s|%s" % (sorted((p.get("cfg") or {}).items()), sorted((k, str(v)) for k, v in (p.get("kw") or {}).items()),
+                               p.get("entry"))
+    return "%s|%d|%s|%s|%s|%s|%d%s" % (p["cls"], len(x), p["nfft"], p["fs"], p.get("k"), np.iscomplexobj(x),
+                                       hash(x.tobytes()) & 0xFFFFF, extra)
 
 
 def _tags(p):
     if "cls" not in p:
         return ["axis:" + ("odd" if p["n"] % 2 else "even")]
     n = p["nfft"]
-    return ["cls:" + p["cls"], "complex" if np.iscomplexobj(p["x"]) else "real",
-            "nfft:%s" % (n if not isinstance(n, int) else ("odd" if n % 2 else "even")), "N:" + ("odd" if len(p["x"]) % 2 else "even")]
+    x = np.asarray(p["x"])
+    out = ["cls:" + p["cls"], "complex" if np.iscomplexobj(x) else "real",
+           "nfft:%s" % (n if not isinstance(n, (int, np.integer)) else ("odd" if n % 2 else "even")), "N:" + ("odd" if len(x) % 2 else "even")]
+    if p.get("cfg") is not None:
+        out.append("cfg:given")
+    if "kw" in p:
+        out += ["data:%s/%s" % (type(p["x"]).__name__, x.dtype), "entry:" + p.get("entry", "psd")]
+        out += ["default:" + k for k in ("NFFT", "sampling", "scale_by_freq") if k not in p["kw"]]
+    return out
 
 
 # kinds whose parameters describe the content of x: no derived degenerate records
@@ -159,6 +372,8 @@ KINDS = {
     "glue": {"impl": impl_glue, "model": model_glue, "oracle": oracle_shape, "rtol": 1e-9, "atol": 1e-300, "key": _key, "tags": _tags},
     "axis": {"impl": impl_axis, "model": model_axis, "post": post_axis, "rtol": 1e-13, "atol": 0.0, "key": _key, "tags": _tags},
     "tone": {"oracle": oracle_tone, "key": _key, "tags": _tags},
+    "place": {"oracle": oracle_place, "key": _key, "tags": _tags},
+    "entry": {"oracle": oracle_entry, "key": _key, "tags": _tags},
 }
 
 
@@ -169,30 +384,222 @@ def _tone_data(nrng, N, nfft, k, cplx):
     return np.cos(2 * np.pi * k * n / nfft + nrng.uniform(0, 6)) + 1e-3 * nrng.standard_normal(N)
 
 
+def _pick(nrng, seq):
+    return seq[int(nrng.integers(0, len(seq)))]
+
+
+def _nonneg_windows(n):
+    """names of the windows without negative samples at length n (flattop, lanczos, sinc are excluded: a window with negative samples
+    does not have its transform's maximum modulus at 0 in general)"""
+    from spectrum.window import window_names, create_window
+    out = []
+    for w in sorted(window_names):
+        try:
+            if float(np.min(create_window(n, w))) > -1e-12:
+                out.append(w)
+        except Exception:
+            pass
+    return out
+
+
+_NNW = {}
+
+
+def _nnw(n):
+    if n not in _NNW:
+        _NNW[n] = _nonneg_windows(n)
+    return _NNW[n]
+
+
+def _tone_cfg(nrng, cls, N, cplx):
+    """a configuration in the domain of the tone clause: the model can hold the tone (AR order >= number of exponentials, NSIG >= number
+    of exponentials or chosen by the library's criteria), the window cannot move the maximum (non-negative samples)"""
+    ne = 1 if cplx else 2
+    if cls == "Periodogram":
+        return {"window": _pick(nrng, _nnw(N))}
+    if cls == "pcorrelogram":
+        lag = int(nrng.integers(4, N // 2))
+        return {"lag": lag, "window": _pick(nrng, _nnw(2 * lag + 1))}
+    if cls in ("pburg", "pyule"):
+        return {"order": int(nrng.integers(ne, 13))}
+    if cls == "pminvar":
+        return {"order": int(nrng.integers(3, min(N // 2, 12) + 1))}
+    if cls in ("pcovar", "pmodcovar"):
+        return {"order": int(nrng.integers(ne, 11))}
+    if cls == "parma":
+        # real data: exactly the two poles of the sinusoid.  A spare real pole (odd order) is placed by the noise alone and lands closer
+        # to the unit circle than the tone's pair about once in 4000 records (observed: order 3, Q 2, lag 7, maximum at frequency 0):
+        # an ill-conditioned fit, not a placement on the axis
+        P = int(nrng.integers(1, 4)) if cplx else 2
+        Q = int(nrng.integers(1, 4))
+        lo = max(Q, 2 * P) + 1
+        return {"order": P, "Q": Q, "lag": int(nrng.integers(lo, lo + 5))}
+    if cls == "pma":
+        return C.random_cfg(nrng, cls, N)
+    if cls in ("pmusic", "pev"):
+        # the noise subspace keeps at least two vectors, or has no spare root: with a single noise vector of P-1 > ne roots (Pisarenko)
+        # a spare root on the unit circle gives a deeper null than the tone's (observed: order 5, criteria 'mdl' -> NSIG 4, one real
+        # sinusoid, maximum at frequency 0) - a property of the method, not of the axis.  The library's own choice of NSIG (aic, mdl,
+        # threshold 2: all may take every value up to P-1) is therefore exercised at P = ne+1, threshold 100 (which separates the tone,
+        # 1000 times the noise, from the noise) at any P >= ne+2
+        w = int(nrng.integers(0, 6))
+        if w == 0:
+            return {"order": ne + 1, "nsig": None, "criteria": "aic"}
+        if w == 1:
+            return {"order": ne + 1, "nsig": None, "criteria": "mdl"}
+        if w == 2:
+            return {"order": ne + 1, "nsig": None, "threshold": 2}
+        if w == 3:
+            return {"order": int(nrng.integers(ne + 2, 9)), "nsig": None, "threshold": 100}
+        P = int(nrng.integers(3, 9))
+        return {"order": P, "nsig": int(nrng.integers(ne, max(ne, P - 2) + 1))}
+    if cls.startswith("MT"):
+        return C.random_cfg(nrng, cls, N)
+    raise ValueError(cls)
+
+
+def _real_k(nrng, cls, N, nfft, cfg):
+    lo = int(np.ceil(4 * _half_width(cls, N, nfft, cfg)))
+    hi = nfft // 2 - lo
+    if hi <= lo:
+        return nfft // 4
+    return int(nrng.integers(lo, hi))
+
+
+def _boundary_ks(nfft):
+    h = nfft // 2
+    ks = [0, 1, -1, h - 1, -(h - 1)]
+    ks += [h, -h] if nfft % 2 == 0 else [(nfft - 1) // 2, -((nfft - 1) // 2)]
+    out = []
+    for k in ks:
+        if k not in out:
+            out.append(k)
+    return out
+
+
+NFFT7 = [None, "nextpow2", 64, 65, "2N", "2N+1", 97]
+NFFT6 = [None, "nextpow2", 64, 65, 96, 97]
+RATES = [1.0, 2.0, 1000.0, 250.0, 44100.0]
+
+
+def _nfft7(w, N):
+    return {"2N": 2 * N, "2N+1": 2 * N + 1}.get(w, w)
+
+
+def _entry_cases(nrng, n):
+    """objects built as a user would build them: constructor defaults, other containers / dtypes, other entry points"""
+    NC = len(C.CLASSES)
+    off = nrng.integers(0, 1000, size=6)
+    for i in range(n):
+        cls = C.CLASSES[i % NC]
+        r = i // NC
+        form = ["list", "int", "float32", "czero", "float64", "complex128", "int16", "clist"][(r + off[0] + i) % 8]
+        small = bool(nrng.integers(0, 3) == 0)
+        if small:
+            N = int(nrng.integers(6, 17))
+            cfg = _min_cfg(cls, N)
+        else:
+            N = _pick(nrng, [24, 25, 32, 33])
+            cfg = None if nrng.integers(0, 2) else C.random_cfg(nrng, cls, N)
+        cplx = form in ("czero", "complex128", "clist")
+        x = C.test_data(nrng, N, form in ("complex128", "clist"))
+        if form == "list":
+            data = [float(v) for v in x]
+        elif form == "clist":
+            data = [complex(v) for v in x]
+        elif form == "int":
+            data = np.round(20 * x).astype(np.int64)
+        elif form == "int16":
+            data = np.round(20 * x).astype(np.int16)
+        elif form == "float32":
+            data = x.astype(np.float32)
+        elif form == "czero":
+            data = x.astype(complex)
+        else:
+            data = x
+        kw = {}
+        need = C.min_nfft(cls, N, cfg or C.default_cfg(cls, N, cplx))
+        w = int(nrng.integers(0, 9))          # 0, 6, 7, 8: the NFFT default
+        if w == 1:
+            kw["NFFT"] = "nextpow2"
+        elif w == 2:
+            kw["NFFT"] = np.int64(max(64, need))
+        elif w == 3:
+            kw["NFFT"] = np.int32(max(65, need))
+        elif w == 4:
+            kw["NFFT"] = max(N + int(nrng.integers(0, 2)), need)
+        elif w == 5:
+            kw["NFFT"] = np.intp(max(2 * N + 1, need))
+        if "NFFT" not in kw and need > N:
+            kw["NFFT"] = need
+        if kw.get("NFFT") == "nextpow2" and C.resolved_nfft(x, "nextpow2") < need:
+            kw["NFFT"] = need
+        w = int(nrng.integers(0, 4))
+        if w == 1:
+            kw["sampling"] = _pick(nrng, [1, 2, 250, 1000])          # integer sampling rates
+        elif w == 2:
+            kw["sampling"] = _pick(nrng, [2.0, 250.0, 0.5])
+        w = int(nrng.integers(0, 4))
+        if w == 1:
+            kw["scale_by_freq"] = True
+        elif w == 2:
+            kw["scale_by_freq"] = False
+        p = {"cls": cls, "x": data, "kw": kw, "entry": ["psd", "call", "run"][int(nrng.integers(0, 3))],
+             "nfft": kw.get("NFFT"), "fs": kw.get("sampling", 1.0)}
+        if cfg is not None:
+            p["cfg"] = cfg
+        yield ("entry", p)
+
+
+def _min_cfg(cls, N):
+    """the smallest orders of every class (short records, N in 6..16)"""
+    return {"Periodogram": {"window": "hann"}, "pcorrelogram": {"lag": 1, "window": "hamming"}, "pburg": {"order": 1},
+            "pyule": {"order": 1}, "pcovar": {"order": 1}, "pmodcovar": {"order": 1}, "parma": {"order": 1, "Q": 1, "lag": 3},
+            "pma": {"Q": 1, "M": 2}, "pminvar": {"order": 2}, "pmusic": {"order": 2, "nsig": 1}, "pev": {"order": 2, "nsig": 1},
+            "MT-unity": {"NW": 1.5, "k": 1}, "MT-eigen": {"NW": 1.5, "k": 1}, "MT-adapt": {"NW": 1.5, "k": 2}}[cls]
+
+
 def gen(rng, nrng, tier):
-    m = 112 if tier == "quick" else 1700
+    NC = len(C.CLASSES)
+    quick = tier == "quick"
+    # ---- default configurations: class x complex x N x NFFT choice.  quick: every class meets each of the 7 NFFT choices (8 cases per
+    # class, a per-class random rotation), the other coordinates are drawn independently; thorough: the full product 14 x 2 x 4 x 7,
+    # then independent draws
+    m = 112 if quick else 1700
+    full = NC * 2 * 4 * 7
+    off = nrng.integers(0, 7, size=NC)
     for i in range(m):
-        cls = C.CLASSES[i % len(C.CLASSES)]
-        cplx = bool((i // len(C.CLASSES)) % 2)
-        N = [32, 33, 47, 64][(i // 3) % 4]
+        if not quick and i < full:
+            ci, r = i % NC, i // NC
+            cplx, r = bool(r % 2), r // 2
+            N, r = [32, 33, 47, 64][r % 4], r // 4
+            w = NFFT7[r % 7]
+        else:
+            ci = i % NC
+            cplx = bool(nrng.integers(0, 2))
+            N = _pick(nrng, [32, 33, 47, 64])
+            w = NFFT7[(i // NC + off[ci]) % 7] if quick else _pick(nrng, NFFT7)
+        cls = C.CLASSES[ci]
         x = C.test_data(nrng, N, cplx)
-        nfft = [None, "nextpow2", 64, 65, 2 * N, 2 * N + 1, 97][(i // 2) % 7]
+        nfft = _nfft7(w, N)
         if isinstance(nfft, int) and nfft < N:
             nfft = N + (i % 2)
-        yield ("glue", {"cls": cls, "x": x, "nfft": nfft, "fs": [1.0, 2.0, 1000.0, 250.0, 44100.0][i % 5]})
-    # random and boundary configurations (orders, lags, windows, taper counts) of every class
-    mc = 56 if tier == "quick" else 800
+        yield ("glue", {"cls": cls, "x": x, "nfft": nfft, "fs": _pick(nrng, RATES)})
+    # ---- random and boundary configurations (orders, lags, windows, taper counts) of every class; every coordinate but the class is an
+    # independent draw (boundary configurations with probability 1/4 for every class)
+    mc = 56 if quick else 800
     for i in range(mc):
-        cls = C.CLASSES[i % len(C.CLASSES)]
-        cplx = bool((i // len(C.CLASSES)) % 2)
-        N = [24, 25, 40][i % 3]
+        cls = C.CLASSES[i % NC]
+        cplx = bool(nrng.integers(0, 2))
+        N = _pick(nrng, [24, 25, 40])
         x = C.test_data(nrng, N, cplx)
-        cfg = C.random_cfg(nrng, cls, N, boundary=(i % 4 == 3))
+        cfg = C.random_cfg(nrng, cls, N, boundary=bool(nrng.integers(0, 4) == 3))
         need = {"pcorrelogram": 2 * cfg.get("lag", 0) + 1, "pminvar": 2 * cfg.get("order", 0)}.get(cls, 0)
-        nfft = max([None, 64, 65, 97][(i // 3) % 4] or N, need, N) if (i // 3) % 4 else (None if need <= N else max(need, N))
-        yield ("glue", {"cls": cls, "x": x, "nfft": nfft, "fs": [1.0, 250.0][i % 2], "cfg": cfg})
-    # correlogram lags at or above NFFT/2 (2*lag+1 > NFFT: the lag sequence wraps; lengths and axes are those of NFFT all the same)
-    for i in range(12 if tier == "quick" else 120):
+        w = _pick(nrng, [None, 64, 65, 97])
+        nfft = max(w, need, N) if w else (None if need <= N else max(need, N))
+        yield ("glue", {"cls": cls, "x": x, "nfft": nfft, "fs": _pick(nrng, [1.0, 250.0]), "cfg": cfg})
+    # ---- correlogram lags at or above NFFT/2 (2*lag+1 > NFFT: the lag sequence wraps; lengths and axes are those of NFFT all the same)
+    for i in range(12 if quick else 120):
         cplx = bool(i % 2)
         N = [32, 33, 24][i % 3]
         x = C.test_data(nrng, N, cplx)
@@ -200,28 +607,87 @@ def gen(rng, nrng, tier):
         nfft = [None, N + 1, 2 * lag, 2 * lag - 1][(i // 3) % 4]
         if isinstance(nfft, int) and nfft < N:
             nfft = None
-        yield ("glue", {"cls": "pcorrelogram", "x": x, "nfft": nfft, "fs": [1.0, 250.0][i % 2],
-                        "cfg": {"lag": lag, "window": ["hamming", "rectangular", "hann"][i % 3]}})
-    # the axes for every NFFT up to 200 (and a few larger) at "round" and awkward sampling rates: n*df is computed in floating point
+        yield ("glue", {"cls": "pcorrelogram", "x": x, "nfft": nfft, "fs": _pick(nrng, [1.0, 250.0]),
+                        "cfg": {"lag": lag, "window": ["hamming", "rectangular", "hann"][(i // 6) % 3]}})
+    # ---- the axes for every NFFT up to 200 (and a few larger) at "round" and awkward sampling rates: n*df is computed in floating point
     rates = [1.0, 3.0, 100.0, 250.0, 1000.0, 8000.0, 44100.0, 0.1, 1e-2, 1e5]
     for n in list(range(1, 201)) + [255, 256, 257, 1000, 1024, 4096]:
         for fs in (rates if tier == "thorough" else [rates[(n + j) % len(rates)] for j in range(3)]):
             yield ("axis", {"n": n, "fs": fs})
-    t = 112 if tier == "quick" else 1700
+    # ---- placement of the model-based estimates: entry j against the rational spectrum of the stored coefficients at frequencies()[j].
+    # thorough: the full product 6 classes x real/complex x N in {32, 33} x 4 NFFT choices x 2 rates at the default orders, then the same
+    # number at random / boundary orders; quick: 12 cases per class
+    NA = len(C.AR_FAMILY)
+    pfull = NA * 2 * 2 * 4 * 2
+    offp = nrng.integers(0, 4, size=NA)
+    for i in range(72 if quick else 2 * pfull):
+        if not quick and i < pfull:
+            ci, r = i % NA, i // NA
+            cplx, r = bool(r % 2), r // 2
+            N, r = [32, 33][r % 2], r // 2
+            nf, r = [None, "nextpow2", 64, 65][r % 4], r // 4
+            fs = [1.0, 250.0][r % 2]
+            cfg = None
+        else:
+            ci = i % NA
+            cplx = bool(nrng.integers(0, 2))
+            N = _pick(nrng, [32, 33])
+            nf = [None, "nextpow2", 64, 65][(i // NA + offp[ci]) % 4]
+            fs = _pick(nrng, [1.0, 250.0])
+            cfg = None if nrng.integers(0, 2) else C.random_cfg(nrng, C.AR_FAMILY[ci], N, boundary=bool(nrng.integers(0, 4) == 3))
+        p = {"cls": C.AR_FAMILY[ci], "x": C.test_data(nrng, N, cplx), "nfft": nf, "fs": fs}
+        if cfg is not None:
+            p["cfg"] = cfg
+        yield ("place", p)
+    # ---- shape clause through the constructor defaults / other containers, dtypes and entry points
+    for c in _entry_cases(nrng, 112 if quick else 700):
+        yield c
+    # ---- tone clause, default configurations.  quick: every class meets each of the 6 NFFT choices; thorough: the full product
+    # 14 x 2 x 3 x 6 first; the rate and the tone bin are independent draws
+    t = 112 if quick else 1700
+    tfull = NC * 2 * 3 * 6
+    offt = nrng.integers(0, 6, size=NC)
     for i in range(t):
-        cls = C.CLASSES[i % len(C.CLASSES)]
-        cplx = bool((i // len(C.CLASSES)) % 2)
-        N = [32, 33, 48][(i // 5) % 3]
-        nf = [None, "nextpow2", 64, 65, 96, 97][(i // 2) % 6]
+        if not quick and i < tfull:
+            ci, r = i % NC, i // NC
+            cplx, r = bool(r % 2), r // 2
+            N, r = [32, 33, 48][r % 3], r // 3
+            nf = NFFT6[r % 6]
+        else:
+            ci = i % NC
+            cplx = bool(nrng.integers(0, 2))
+            N = _pick(nrng, [32, 33, 48])
+            nf = NFFT6[(i // NC + offt[ci]) % 6] if quick else _pick(nrng, NFFT6)
+        cls = C.CLASSES[ci]
         nfft = C.resolved_nfft(np.zeros(N), nf)
         if cplx:
             k = int(nrng.integers(-(nfft // 2) + 1, nfft // 2))
         else:
-            lo = int(np.ceil(4 * _half_width(cls, N, nfft, C.default_cfg(cls, N, False))))
-            hi = nfft // 2 - lo
-            if hi <= lo:
-                k = nfft // 4
-            else:
-                k = int(nrng.integers(lo, hi))
+            k = _real_k(nrng, cls, N, nfft, C.default_cfg(cls, N, False))
         x = _tone_data(nrng, N, nfft, k, cplx)
-        yield ("tone", {"cls": cls, "x": x, "nfft": nf, "fs": [1.0, 2.0][i % 2], "k": k})
+        yield ("tone", {"cls": cls, "x": x, "nfft": nf, "fs": _pick(nrng, [1.0, 2.0, 250.0]), "k": k})
+    # ---- tone clause at random configurations inside the clause's domain (see _tone_cfg)
+    for i in range(112 if quick else 1400):
+        cls = C.CLASSES[i % NC]
+        cplx = bool(nrng.integers(0, 2))
+        N = _pick(nrng, [32, 33, 48])
+        nf = _pick(nrng, NFFT6)
+        nfft = C.resolved_nfft(np.zeros(N), nf)
+        cfg = _tone_cfg(nrng, cls, N, cplx)
+        k = int(nrng.integers(-(nfft // 2) + 1, nfft // 2)) if cplx else _real_k(nrng, cls, N, nfft, cfg)
+        x = _tone_data(nrng, N, nfft, k, cplx)
+        yield ("tone", {"cls": cls, "x": x, "nfft": nf, "fs": _pick(nrng, [1.0, 2.0, 250.0]), "k": k, "cfg": cfg})
+    # ---- complex exponentials on the boundary bins 0, +-1, +-NFFT/2 (one bin: Nyquist), +-(NFFT//2-1), +-(NFFT-1)/2 of every class under
+    # the tone clause.  thorough: all of 13 classes x N in {32, 33, 48} x 6 NFFT choices x the bins; quick: 10 per class
+    tone_cls = [c for c in C.CLASSES if c != "pma"]
+    combos = [(c, N, nf, k) for c in tone_cls for N in (32, 33, 48) for nf in NFFT6
+              for k in _boundary_ks(C.resolved_nfft(np.zeros(N), nf))]
+    if quick:
+        per = {}
+        for cb in combos:
+            per.setdefault(cb[0], []).append(cb)
+        combos = [per[c][int(j)] for c in tone_cls for j in nrng.choice(len(per[c]), size=10, replace=False)]
+    for cls, N, nf, k in combos:
+        nfft = C.resolved_nfft(np.zeros(N), nf)
+        x = _tone_data(nrng, N, nfft, k, True)
+        yield ("tone", {"cls": cls, "x": x, "nfft": nf, "fs": _pick(nrng, [1.0, 2.0, 250.0]), "k": k})
